@@ -61,6 +61,17 @@ Create(k, sz, c) ==
        /\ used' = used - Freed(n) + (IF ok THEN sz ELSE 0)
        /\ UNCHANGED cap
 
+\* Create of a name the file system refuses (longer than NAME_MAX, or below an existing blob's data file): room is made as
+\* for any admission (the LRU heads are evicted), the directory cannot be made, the reservation is handed back and nothing
+\* is stored - reserved bytes stay the sum of the live sizes (disk store only; lib/store/disk/store.go Create, failure paths).
+CreateBadRes(sz) == IF EvOK(sz) THEN "other" ELSE "nospace"
+CreateBad(sz) == LET n == EvN(sz) IN
+       /\ st' = Evicted(n, st, "absent") /\ size' = Evicted(n, size, 0)
+       /\ banned' = Evicted(n, banned, FALSE) /\ md' = Evicted(n, md, NoMd)
+       /\ content' = Evicted(n, content, 0)
+       /\ lru' = DropSeq(n) /\ used' = used - Freed(n)
+       /\ UNCHANGED cap
+
 \* Open: reply class and (when ok) the content read back; touches the LRU position
 OpenRes(k, sc) == Gate(k, sc)
 Open(k, sc) == /\ lru' = IF Gate(k, sc) = "ok" /\ k \in Range(lru) THEN Append(Without(k), k) ELSE lru
@@ -154,6 +165,7 @@ Clean(pct, respectBan, D2, D3) ==
 
 ----------------------------------------------------------------------------
 Next == \/ \E k \in Keys, sz \in Sizes, c \in Contents : Create(k, sz, c)
+        \/ \E sz \in Sizes : CreateBad(sz)
         \/ \E k \in Keys, sc \in Scopes : Open(k, sc) \/ Delete(k, sc) \/ Ban(k, sc) \/ Unban(k, sc)
         \/ \E k \in Keys : MarkComplete(k)
         \/ \E k \in Keys, s \in Suffixes, v \in Vals \cup {0}, sc \in Scopes : SetMd(k, s, v, sc)
